@@ -43,6 +43,7 @@ type schedCfg struct {
 	MaxT int    `json:"maxt"` // abstract times 0..MaxT
 	Cls  string `json:"cls"`  // plain | hostile | newline
 	TCls string `json:"tcls"` // small | wide
+	Cid  int    `json:"cid"`  // concretization id: schedules with the same cid get the same concrete names
 }
 
 type sched struct {
@@ -144,7 +145,7 @@ func concretize(c schedCfg, rng *rand.Rand) *conc {
 		e := 1 + rng.Intn(c.NN)
 		k.names[e] = newlineNames[rng.Intn(len(newlineNames))]
 		k.evil = []int{e}
-		k.tags = []string{"name_has_newline"}
+		k.tags = []string{"nl_name"}
 	}
 	for i := 1; i <= c.NN; i++ {
 		k.nIdx[k.names[i]] = i
@@ -603,7 +604,8 @@ func (r *runner) input(st h.Step, crashAt int) (crashed bool, k int) {
 		case <-time.After(waitLong):
 			h.Die("leave was not followed by a sync of the snapshot within %v", waitLong)
 		}
-		r.barrier()
+		// the sync is the last thing the leave handler does to the snapshotter; no barrier tick here (a tick
+		// would run updateClock, which is not part of this input)
 	case "shutdown":
 		close(r.shut)
 		r.snap.Wait()
@@ -722,7 +724,7 @@ func child(in, out, work string, from int) {
 	for i := from; i < len(scheds); i++ {
 		s := scheds[i]
 		fmt.Printf("BEGIN %d\n", i)
-		rng := rand.New(rand.NewSource(h.Seed()*1000003 + int64(s.ID)))
+		rng := rand.New(rand.NewSource(h.Seed()*1000003 + int64(s.Cfg.Cid)))
 		k := concretize(s.Cfg, rng)
 		tr.emit(map[string]interface{}{"a": "reset", "id": s.ID, "cfg": k.resetCfg(s.Cfg)}, 0)
 		r := &runner{s: s, k: k, tr: tr, work: work, recC: map[string]map[string]interface{}{}}
